@@ -28,7 +28,6 @@ THEOREMS = {
         "numEdges_eq",
         "degrees_eq",
         "dimensions_eq",
-        "adjmap_numEdges_refuted",
         "ts_numEdges_tombstone_refuted",
         "toSegment_panics",
         "toSegment_partial",
@@ -39,6 +38,7 @@ THEOREMS = {
         "ts_adj_eq_old_partial",
         "proj_adj_eq_old_partial",
         "c14_refuted_old",
+        "adjmap_numEdges_refuted_old",
         "c14_old_partial",
     ]],
 }
